@@ -43,7 +43,7 @@ class EnumDef:
 
     @property
     def active(self):
-        return [(n, d) for (n, d, c) in self.variants if c not in ("off", "off_doc")]
+        return [(n, d) for (n, d, c) in self.variants if c not in ("off", "off_doc", "off_attr")]
 
     @property
     def returns_result(self) -> bool:
@@ -80,6 +80,10 @@ class EnumDef:
                 out.append("    #[cfg(all())]")
             elif c in ("off", "off_doc"):
                 out.append("    #[cfg(any())]")
+            elif c == "off_attr":
+                out.append("    #[cfg_attr(all(), cfg(any()))]")
+            elif c == "on_attr":
+                out.append("    #[cfg_attr(all(), cfg(all()))]")
             if c == "doc":
                 out.append(f"    /// documented variant {n}")
                 out.append("    #[allow(dead_code)]")
